@@ -30,7 +30,7 @@ ASSUMPTIONS = ["scipy solve_ivp DOP853 at rtol 1e-11 is accurate to 1e-8 m over 
                "numeric tracer: the two depths are at least 2 dz apart (fewer than two trapezoid steps is outside its domain)"]
 BUDGET = {"quick": 600, "thorough": 5400}
 CASE_TIMEOUT = {"quick": 120, "thorough": 240}
-CLASSES = ["generic", "shallow", "deep", "near-vertical", "shadow-boundary", "almost-horizontal", "steep", "exactly-vertical", "generic", "outside"]
+CLASSES = ["generic", "shallow", "deep", "near-vertical", "shadow-boundary", "almost-horizontal", "steep", "exactly-vertical", "generic", "outside", "beyond-direct-range", "beyond-direct-range"]
 
 
 def gen_cases(tier, seed):
@@ -182,6 +182,15 @@ def run_case(case):
                 b = np.array([a[0] + u[0] * r_, a[1] + u[1] * r_, b[2]])
         except Exception:
             pass        # the final construction below reports it
+    if case["cls"] == "beyond-direct-range" and abs(b[2] - a[2]) > 1.0:
+        # the receiver is moved to 0.05 % ... 8 % beyond the largest range a never-turning ray can cover between the two depths
+        # (oracle: the ray grazing the upper depth): the first solution turns over just above the upper endpoint there
+        u = (b - a)[:2]
+        u = u / max(np.linalg.norm(u), 1e-300) if np.any(u) else np.array([1.0, 0.0])
+        rmax_ = rayode.max_direct_range(nfun, min(a[2], b[2]), max(a[2], b[2]))
+        if np.isfinite(rmax_) and 1.0 < rmax_ < 2e4:
+            r_ = rmax_ * (1 + float(10 ** case_rng(case).uniform(-3.3, -1.5)))
+            b = np.array([a[0] + u[0] * r_, a[1] + u[1] * r_, b[2]])
     rho = float(np.hypot(*(b - a)[:2]))
     z0, z1 = float(a[2]), float(b[2])
     geo = {"ice": [n0, k_, a_, [zmin, ztop]], "from": a.tolist(), "to": b.tolist(), "rho": rho, "tracer": case["tracer"], "dz": case["dz"],
